@@ -3,15 +3,21 @@
 package c11
 
 import (
+	"context"
 	"fmt"
 	"sort"
 	"strings"
 	"testing"
 
+	core "github.com/envoyproxy/go-control-plane/envoy/config/core/v3"
+	"google.golang.org/grpc/codes"
+	"google.golang.org/grpc/status"
+
 	"istio.io/istio/pilot/pkg/features"
 	"istio.io/istio/pilot/pkg/model"
 	"istio.io/istio/pilot/pkg/model/credentials"
 	"istio.io/istio/pilot/pkg/xds"
+	xdsfake "istio.io/istio/pilot/test/xds"
 	"istio.io/istio/pkg/cluster"
 	istiolog "istio.io/istio/pkg/log"
 	"istio.io/istio/pkg/util/sets"
@@ -54,8 +60,10 @@ func genName(r *vlib.Rand) string {
 		s += vlib.Pick(r, nsPool) + "/"
 	}
 	s += name
-	if r.Chance(6) {
-		s += "/" + vlib.Pick(r, []string{"", "x", "tls", "a/b"})
+	// parsable-but-odd: extra path segments, so that the RAW text and the PARSED fields disagree (about the
+	// -cacert suffix in particular: the parsed name is the second segment, the raw name ends with the last one)
+	if r.Chance(14) {
+		s += "/" + vlib.Pick(r, []string{"", "x", "tls", "a/b", "x-cacert", "-cacert", name + "-cacert", "/x-cacert", "x-cacert/"})
 	}
 	return s
 }
@@ -209,7 +217,7 @@ func TestGen(t *testing.T) {
 		s.SetOutputLevel(istiolog.NoneLevel)
 	}
 	c := vlib.NewCollector("C11", "V.C11.Run")
-	c.Rule = "ident: node id + metadata (namespace from ISTIO_META or the DNS domain, SA) through ParseServiceNodeWithMetadata/GetProxyConfigNamespace x credential identity lists (well-formed, foreign namespace/SA, malformed SPIFFE, nil list, empty list) through the real DiscoveryServer.authorize, " +
+	c.Rule = "ident: first request of a stream (node id + metadata: namespace from ISTIO_META or the DNS domain, SA; SotW and delta) through the REAL DiscoveryServer.initConnection on a fake discovery server x credential identity lists (well-formed, foreign namespace/SA, malformed SPIFFE, nil list, empty list) ; observed = error class or the resulting proxy's ConfigNamespace/VerifiedIdentity, " +
 		"identity check on and off; non-trivial = list non-nil and contains >=1 parsable identity. " +
 		"parse: generated resource names (4 schemes x optional namespace x names, extra components, -cacert, near-miss and odd names) through credentials.ParseResourceName; non-trivial = parses. " +
 		"filter: real parseResources + filterAuthorizedResources with a data-driven fake controller (Authorize outcome chosen per cluster/namespace/SA); non-trivial = >=1 resource denied and >=1 allowed. " +
@@ -241,6 +249,8 @@ func TestGen(t *testing.T) {
 		}
 	}
 	saved := features.EnableXDSIdentityCheck
+	fds := xdsfake.NewFakeDiscoveryServer(t, xdsfake.FakeOptions{})
+	fds.EnsureSynced(t)
 	for i := 0; i < vlib.Scale(700, 6000); i++ {
 		id++
 		r := rI.Sub()
@@ -274,20 +284,31 @@ func TestGen(t *testing.T) {
 				ids = append(ids, s)
 			}
 		}
-		p, perr := model.ParseServiceNodeWithMetadata("router~10.0.0.1~gw-1."+mns+"~"+dns, &model.NodeMetadata{Namespace: mns, ServiceAccount: csa})
-		if perr != nil {
-			t.Fatalf("node id rejected: %v", perr)
+		nodeID := "router~10.0.0.1~gw-1." + mns + "~" + dns
+		if r.Chance(3) { // malformed node ids: wrong number of parts
+			nodeID = vlib.Pick(r, []string{"router~10.0.0.1~gw-1.a", "router~10.0.0.1~gw-1.a~a.svc.cluster.local~x", "", "router"})
 		}
-		p.ConfigNamespace = model.GetProxyConfigNamespace(p) // as initProxyMetadata does
+		node := &core.Node{Id: nodeID, Metadata: model.NodeMetadata{Namespace: mns, ServiceAccount: csa}.ToStruct()}
 		features.EnableXDSIdentityCheck = enable
+		// the real connection setup on the fake discovery server: SotW and delta streams both go through initConnection
+		var con *xds.Connection
+		if i%2 == 0 {
+			con = xds.VerifC05NewConnection(fds.Discovery, "", nil, &sotwStream{ctx: context.Background()}, nil)
+		} else {
+			con = xds.VerifC05NewConnection(fds.Discovery, "", nil, nil, &deltaStream{ctx: context.Background()})
+		}
 		var err error
-		if pan, msg := vlib.Recover(func() { err = xds.VerifC11Authorize(p, ids) }); pan {
-			c.Violate(vlib.Violation{ID: id, Kind: "panic", Detail: msg, Case: map[string]any{"mns": mns, "dns": dns, "csa": csa, "ids": ids}})
+		if pan, msg := vlib.Recover(func() { err = xds.VerifC05InitConnection(fds.Discovery, node, con, ids) }); pan {
+			c.Violate(vlib.Violation{ID: id, Kind: "panic", Detail: msg, Case: map[string]any{"node": nodeID, "mns": mns, "csa": csa, "ids": ids}})
 			continue
 		}
-		obs := "AuthDenied"
+		obs := "ConnDenied"
+		cfgNs := ""
 		tags := []string{"ident"}
-		if err == nil {
+		switch {
+		case err == nil:
+			p := con.Proxy()
+			cfgNs = p.ConfigNamespace
 			var v *Ident
 			if p.VerifiedIdentity != nil {
 				v = &Ident{p.VerifiedIdentity.TrustDomain, p.VerifiedIdentity.Namespace, p.VerifiedIdentity.ServiceAccount}
@@ -295,16 +316,24 @@ func TestGen(t *testing.T) {
 			} else {
 				tags = append(tags, "ident=accepted-unverified")
 			}
-			obs = vlib.App("AuthAccepted", identTerm(v))
-		} else {
+			obs = vlib.App("ConnAccepted", S(cfgNs), identTerm(v))
+			xds.VerifC05CloseConnection(fds.Discovery, con)
+		case status.Code(err) == codes.PermissionDenied:
 			tags = append(tags, "ident=denied")
+		case status.Code(err) == codes.InvalidArgument:
+			obs = "ConnInvalid"
+			tags = append(tags, "ident=invalid-node")
+		default:
+			c.Violate(vlib.Violation{ID: id, Kind: "oracle", Detail: "initConnection failed unexpectedly: " + err.Error(),
+				Case: map[string]any{"node": nodeID, "mns": mns, "csa": csa, "ids": ids}})
+			continue
 		}
 		idsT := "None"
 		if !idsNil {
 			idsT = "(Some " + strList(ids) + ")"
 		}
-		c.Add(vlib.Case{ID: id, Term: vlib.App("Ident", vlib.NI(id), vlib.B(enable), S(mns), S(dns), S(csa), idsT, obs), Tags: tags,
-			Sample:  map[string]any{"kind": "ident", "enable": enable, "meta_ns": mns, "dns_domain": dns, "config_ns": p.ConfigNamespace, "csa": csa, "ids": ids, "nil": idsNil, "observed": obs},
+		c.Add(vlib.Case{ID: id, Term: vlib.App("Ident", vlib.NI(id), vlib.B(enable), S(nodeID), S(mns), S(csa), idsT, obs), Tags: tags,
+			Sample:  map[string]any{"kind": "ident", "enable": enable, "node_id": nodeID, "meta_ns": mns, "config_ns": cfgNs, "csa": csa, "ids": ids, "nil": idsNil, "observed": obs},
 			Trivial: idsNil || parsable == 0})
 	}
 	features.EnableXDSIdentityCheck = saved
@@ -558,11 +587,20 @@ func TestGen(t *testing.T) {
 		// names that point at stored objects, so that private keys actually flow
 		for k := 1 + r.Intn(4); k > 0 && len(w.Secrets) > 0; k-- {
 			s := vlib.Pick(r, w.Secrets)
-			switch r.Intn(5) {
+			switch r.Intn(7) {
 			case 0, 1:
 				pool = append(pool, "kubernetes://"+s.Name)
 			case 2, 3:
 				pool = append(pool, "kubernetes://"+s.Ns+"/"+s.Name)
+			case 4:
+				// three segments: parsed name = the stored secret, raw text ends in -cacert (or the reverse)
+				pool = append(pool, vlib.Pick(r, []string{
+					"kubernetes://" + s.Ns + "/" + s.Name + "/x-cacert",
+					"kubernetes://" + s.Ns + "/" + s.Name + "/" + s.Name + "-cacert",
+					"kubernetes://" + s.Ns + "/" + s.Name + "//-cacert",
+					"kubernetes://" + s.Ns + "/" + s.Name + "-cacert/x",
+					"kubernetes-gateway://" + s.Ns + "/" + s.Name + "/x-cacert",
+				}))
 			default:
 				pool = append(pool, "kubernetes-gateway://"+s.Ns+"/"+s.Name)
 			}
@@ -645,10 +683,21 @@ func TestGen(t *testing.T) {
 
 	// ---- the real kube CredentialsController.Authorize against a fake SubjectAccessReview backend
 	rK := root.Sub()
-	kSa := []string{"gw", "default", "b:gw", ""}
+	// namespaces / service accounts whose concatenations collide across "-" (team-a + gw = team + a-gw,
+	// istio + istio-ingressgateway = istio-istio + ingressgateway, a + -gw ...) and SA variants with ":" and "/";
+	// namespaces stay colon-free (premise of C11_kube_cache_key_injective)
+	kNs := []string{"team-a", "team", "istio", "istio-istio", "a", "a-"}
+	kSa := []string{"gw", "a-gw", "istio-ingressgateway", "ingressgateway", "-gw", "b:gw", "a/gw", ""}
+	type who struct{ ns, sa string }
+	collide := [][2]who{
+		{{"team-a", "gw"}, {"team", "a-gw"}},
+		{{"istio", "istio-ingressgateway"}, {"istio-istio", "ingressgateway"}},
+		{{"a-", "gw"}, {"a", "-gw"}},
+		{{"team", "a-gw"}, {"team-a", "gw"}},
+	}
 	genGrants := func(r *vlib.Rand) []Grant {
 		gs := []Grant{}
-		for _, ns := range nsPool {
+		for _, ns := range kNs {
 			for _, sa := range kSa {
 				if r.Chance(35) {
 					gs = append(gs, Grant{ns, sa})
@@ -667,6 +716,21 @@ func TestGen(t *testing.T) {
 			continue
 		}
 		b := &sarBackend{grants: genGrants(r)}
+		// half of the histories start with a colliding pair: the RBAC-allowed identity asks first, then the
+		// denied one whose "<ns>-<sa>" reads the same
+		var directed []who
+		if r.Chance(50) {
+			pr := vlib.Pick(r, collide)
+			gs := []Grant{{pr[0].ns, pr[0].sa}}
+			for _, g := range b.grants {
+				if !(g.Ns == pr[1].ns && g.Sa == pr[1].sa) {
+					gs = append(gs, g)
+				}
+			}
+			b.grants = gs
+			directed = []who{pr[0], pr[1]}
+		}
+		startedDirected := len(directed) > 0
 		initial := b.grants
 		ctl, _ := newKubeController(b)
 		opTerms := []string{}
@@ -677,14 +741,18 @@ func TestGen(t *testing.T) {
 		changed := false
 		if pan, msg := vlib.Recover(func() {
 			for k := 4 + r.Intn(9); k > 0; k-- {
-				if r.Chance(20) {
+				if len(directed) == 0 && r.Chance(20) {
 					b.grants = genGrants(r)
 					opTerms = append(opTerms, vlib.App("KSet", grantsTerm(b.grants)))
 					flips++
 					changed = true
 					continue
 				}
-				sa, ns := vlib.Pick(r, kSa), vlib.Pick(r, nsPool)
+				sa, ns := vlib.Pick(r, kSa), vlib.Pick(r, kNs)
+				if len(directed) > 0 {
+					sa, ns = directed[0].sa, directed[0].ns
+					directed = directed[1:]
+				}
 				if changed && seen[ns+"|"+sa] {
 					repeatAfterChange = true
 				}
@@ -702,6 +770,9 @@ func TestGen(t *testing.T) {
 			c.Violate(vlib.Violation{ID: id, Kind: "oracle", Detail: "SubjectAccessReview with unexpected attributes: " + b.odd[0]})
 		}
 		tags := []string{"kauth"}
+		if startedDirected {
+			tags = append(tags, "kauth=colliding-pair-first")
+		}
 		for _, o := range obs {
 			if o {
 				tags = append(tags, "kauth=allowed")
